@@ -6,7 +6,7 @@ open KG KG.Model.ClusterSync KG.Spec.ClusterSync
 /-- the order of the sub-syncs in `ClusterInfo.Sync` the model mirrors is the one the source has now -/
 theorem c11_sync_order :
     KG.Gen.C11.syncOrder = ["nameCheck", "c.syncFeatureGate", "c.flowcontrol.ResetLimiter", "c.flowcontrol.Sync",
-      "c.syncSecureServingConfigLocked", "c.syncEndpoints", "c.currentDispatchPolicies.Store", "c.currentLoggingConfig.Store"] := by
+      "c.syncEndpoints", "c.syncSecureServingConfigLocked", "c.currentDispatchPolicies.Store", "c.currentLoggingConfig.Store"] := by
   decide
 
 end KG.Props.C11
